@@ -1,0 +1,26 @@
+//go:build verif
+
+// Contracts for package transforms (comment-only; read by /verif/bin/vcgo).
+// The functions below are floating-point pixel/DCT kernels; their numerics are outside what SMT decides. Their
+// contracts are TRUSTED frame conditions (what they may write), used to verify the hash functions that call them.
+package transforms
+
+//@ func Rgb2GrayFast
+//@   trusted floating-point pixel conversion; only the frame (writes the pixel buffer) is used
+//@   modifies mem(*pixels)
+
+//@ func DCT2DHash64
+//@   trusted floating-point DCT; only the frame (transforms the pixel buffer in place, returns 64 coefficients) is used
+//@   modifies mem(*input)
+
+//@ func DCT2DHash256
+//@   trusted floating-point DCT; only the frame is used
+//@   modifies mem(*input)
+
+//@ func MedianOfPixels64
+//@   trusted quick-select on a private copy; only purity is used
+//@   pure
+
+//@ func MedianOfPixels256
+//@   trusted quick-select on a private copy; only purity is used
+//@   pure
